@@ -1435,6 +1435,7 @@ func (sc *serverConn) dispatchHandler(strm *Stream) {
 	ctx.Request.Header.SetProtocolBytes(StringHTTP2)
 
 	strm.handlerRunning = true
+	verifTick(verifTickDispatch)
 
 	go func() {
 		defer func() {
